@@ -20,7 +20,7 @@ from tools.props import c16_world as W
 MANIFEST = {
     "level_text": "Coq theorems (Properties/C16.v, no axioms) about a Gallina transcription of every file-system effect of the three entry points (FileWriter, GenerationCache::save, the two visualisation writes, run_generate, run_init, BuildSystem::run_generation with OutputManager::prepare_output_directory / cleanup_old_files / is_generated_file / finalize_generation, as repaired for C16-1 and C16-2) on an abstract file system, for every file system, every effective configuration, every analysis result and every history of runs, with no known-finding premise: every path that is not (a reserved name directly inside the run's output directory and not a project source) and is not the file init was pointed at keeps its bytes, no foreign file appears, no directory disappears and new directories are output directories or their ancestors; reserved_b is proved equivalent to the property text's list, is_generated_file to select only reserved names and never a project source; the witnesses of the two repaired defects are theorems that the files survive. The model is tied to /repo on every run by executing the real binary and the real build entry in pre-populated sandboxes and comparing the whole resulting tree and the decision with the model's.",
     "design_ref": "DESIGN.md section 5 C16",
-    "level_note": "Partial: symbolic links, dot-dot components, permissions and concurrent writers are the operating system's and are outside the model (paths are normalised component lists; the generators use none of them). Analysis result and rendered contents are parameters of a run (universally quantified in the theorems; taken from a reference generation in the correspondence). The configuration resolution (flag > file > default) is C19's; here the effective configuration is an input, recomputed in python for the sandboxes. Reserved is read as: a regular file DIRECTLY inside the output directory bearing a reserved name (the strict reading; nested files with reserved names count as foreign). Trusted: Coq kernel; the hand-written model's tie to the code is differential (bounded).",
+    "level_note": "Partial: symbolic links, dot-dot components, permissions and concurrent writers are the operating system's and are outside the model (paths are normalised component lists; dot-dot behind a symbolic link to a directory is exercised only by the oracle-judged sandbox stream symlinks, where the run's directories are the OS-resolved ones; permissions and concurrent writers by nothing). Analysis result and rendered contents are parameters of a run (universally quantified in the theorems; taken from a reference generation in the correspondence). The configuration resolution (flag > file > default) is C19's; here the effective configuration is an input, recomputed in python for the sandboxes. Reserved is read as: a regular file DIRECTLY inside the output directory bearing a reserved name (the strict reading; nested files with reserved names count as foreign). Trusted: Coq kernel; the hand-written model's tie to the code is differential (bounded).",
     "technique": "Rocq/Coq proof over hand-written model + correspondence check (extracted OCaml vs real CLI binary and Rust build-entry driver in sandboxes)"
 }
 
